@@ -50,6 +50,9 @@ ASSUMPTIONS = [
     "a result obtained while the linear solver itself reported a breakdown (RuntimeError) or non-convergence "
     "(logged warning) is not judged: Krylov breakdowns on small block-structured systems are a property of the "
     "SciPy solvers, which gemseo reports; they are recorded as observations and counted per solver",
+    "whether a linear system was solved is measured (true relative residual of each solve reported as converged "
+    "<= 1e-10), because gemseo trusts the SciPy info flag and TFQMR was seen to return info=0 with a residual of 1e-2",
+    "Jacobian blocks handed over in float32 are judged with 2e-5 instead of 1e-7 (their own rounding is 6e-8)",
     "CG is exercised but its documented domain (symmetric positive definite) excludes these matrices: same rule",
     "use_lu_fact with a linear operator is documented as unsupported and is not generated",
 ]
@@ -145,6 +148,35 @@ class _SolverLog(logging.Handler):
 
 
 _LOG = _SolverLog()
+_SOLVES = []  # true relative residual of every linear solve that the solver reported as converged
+
+
+def _install_solve_monitor():
+    """Measure ||A x - b|| / ||b|| after each solve of gemseo's SciPy wrapper (one extra product per solve).
+
+    gemseo trusts the ``info`` flag of the SciPy solver; TFQMR stops on an *estimate* of the residual norm and was
+    seen to return ``info=0`` with a true relative residual of 1.6e-2 (18x18 matrix, cond 3).  Whether the linear
+    system was solved is therefore measured here, not inferred from the absence of a warning.
+    """
+    from gemseo.algos.linear_solvers.scipy_linalg.scipy_linalg import ScipyLinalgAlgos
+
+    if getattr(ScipyLinalgAlgos._run, "_c07_monitor", False):
+        return
+    original = ScipyLinalgAlgos._run
+
+    def _run(self, problem, **settings):
+        original(self, problem, **settings)
+        if problem.is_converged:
+            try:
+                b = np.asarray(problem.rhs, dtype=float).ravel()
+                x = np.asarray(problem.solution, dtype=float).ravel()
+                nb = float(np.linalg.norm(b))
+                _SOLVES.append(float(np.linalg.norm(np.asarray(problem.lhs.dot(x)).ravel() - b)) / nb if nb else 0.0)
+            except Exception:  # the monitor must never change what gemseo does
+                _SOLVES.append(float("nan"))
+
+    _run._c07_monitor = True
+    ScipyLinalgAlgos._run = _run
 
 
 def _install_log():
@@ -156,6 +188,7 @@ def _install_log():
         lg.addHandler(_LOG)
     lg.setLevel(logging.WARNING)
     lg.propagate = False
+    _install_solve_monitor()
 
 
 # --------------------------------------------------------------------------- generation
@@ -292,6 +325,9 @@ def classify_exception(S, exc, I, O, cfg):
     if (name == "TypeError" and "Cannot cast array data" in msg and func in ("_adjoint_mode_lu", "_direct_mode_lu")
             and cfg.get("jac_repr") in ("float32", "mixed")):
         return "violation", "C07:assembly:TypeError:single-precision-LU-when-all-residual-blocks-are-float32"
+    if (name == "UFuncTypeError" and func == "reverse_chain_rule"
+            and cfg.get("jac_repr") in ("int64", "int32", "mixed")):
+        return "violation", "C07:chain_linearize:UFuncTypeError:in-place-accumulation-into-an-integer-Jacobian"
     if name == "RuntimeError" and "breakdown" in msg and mod == "scipy_linalg":
         return "observe", f"linear-solver-reported-breakdown:{cfg['solver']}"
     crosses = S.request_crosses_strong_link(I, O)
@@ -401,6 +437,7 @@ def run_case(case, rep, sample=False):
         rep.count("requests")
         n_lin0 = sum(d.n_lin for d in discs)
         _LOG.records.clear()
+        _SOLVES.clear()
         failing = dict(case, failed_step=k)
         try:
             if step["all"]:
@@ -438,6 +475,13 @@ def run_case(case, rep, sample=False):
             rep.count("skipped_solver_reported_failure")
             rep.count(f"solver_failed:{cfg['solver']}")
             return  # the unconverged Jacobian stays in the caches of this instance: stop the sequence
+        rep.count("linear_solves_measured", len(_SOLVES))
+        if any(not r <= 1e-10 for r in _SOLVES):
+            rep.observe(f"linear-solver-claimed-convergence-with-large-true-residual:{cfg['solver']}",
+                        {"flavour": cfg["flavour"], "mode": step["mode"], "worst_relative_residual": max(_SOLVES)})
+            rep.count("skipped_solver_false_convergence")
+            rep.count(f"solver_failed:{cfg['solver']}")
+            return  # same rule as a reported failure: not judged, and the Jacobian stays in the caches
         rep.count("requests_judged")
         rep.count(f"solver_ok:{cfg['solver']}")
         rep.count(f"mode:{step['mode']}")
@@ -614,6 +658,9 @@ def directed_cases():
          reprs=(("dense", "int64"), ("dense", "int32"), ("sparse", "int64"), ("dense", "mixed")))
     case(intf, "tail_head", [(["x", "z2"], ["f2"])], jac[1:], combos=every[3:],
          reprs=(("dense", "int64"),), solver="GMRES")
+    # the same through the chain rule of MDAChain(chain_linearize=True): integer and real blocks are accumulated
+    case(intf, "tail_head", [(["x", "z2"], ["f2"]), (["x", "z0"], ["f2", "y2"])], chain[1:], combos=every[:2],
+         reprs=(("dense", "int64"), ("dense", "int32"), ("dense", "readonly")))
     # 7. the other representations on the self-coupled ring (the -I shift works on a copy of the block)
     case(ring, "ring", [(["x", "z0"], ["y0", "f1"])], jac[1:] + newton[:1], nonlinear=True, combos=every[::2],
          reprs=(("dense", "float32"), ("dense", "complex"), ("dense", "fortran"), ("dense", "strided"),
